@@ -24,15 +24,40 @@ def a(code, data, vendor=0, flags=M):
     return R.enc_avp(code, data, vendor, flags)
 
 
+# How the scripted peers write themselves (set per case by a check, reset by `style()`): SPELL maps the configured host
+# name to the spelling used on the wire in every Origin-Host (DiameterIdentity compares without letter case, and the
+# node looks a peer up that way); OSI, when set, is sent as Origin-State-Id in every base-protocol message that may
+# carry one (CER, CEA, DWR, DWA, DPR, DPA).
+SPELL = None
+OSI = None
+
+
+def style(spell=None, osi=None):
+    global SPELL, OSI
+    SPELL, OSI = spell, osi
+
+
+def capitals(host: str) -> str:
+    return ".".join(x.capitalize() for x in host.split("."))
+
+
+def _h(host: str) -> bytes:
+    return (SPELL(host) if SPELL is not None else host).encode()
+
+
+def _osi(default=b""):
+    return a(278, u32(OSI)) if OSI is not None else default
+
+
 def origin(host, realm):
-    return a(264, host.encode()) + a(296, realm.encode())
+    return a(264, _h(host)) + a(296, realm.encode())
 
 
 def cer(host, realm, auth=(), acct=(), vendor_apps=(), hbh=1, e2e=1, ip="10.9.9.9", extra=b"", flags=0x80,
         omit=()):
     body = b""
     if "origin_host" not in omit:
-        body += a(264, host.encode())
+        body += a(264, _h(host))
     if "origin_realm" not in omit:
         body += a(296, realm.encode())
     if "host_ip_address" not in omit:
@@ -52,7 +77,7 @@ def cer(host, realm, auth=(), acct=(), vendor_apps=(), hbh=1, e2e=1, ip="10.9.9.
         if ac is not None:
             inner += a(259, u32(ac))
         body += a(260, inner)
-    return R.enc_msg(CER, app=0, flags=flags, hbh=hbh, e2e=e2e, avps=body + extra)
+    return R.enc_msg(CER, app=0, flags=flags, hbh=hbh, e2e=e2e, avps=body + _osi() + extra)
 
 
 def cea(host, realm, result=RC_SUCCESS, auth=(), acct=(), hbh=1, e2e=1, ip="10.9.9.9", omit=(), flags=0):
@@ -60,7 +85,7 @@ def cea(host, realm, result=RC_SUCCESS, auth=(), acct=(), hbh=1, e2e=1, ip="10.9
     if "result_code" not in omit:
         body += a(268, u32(result))
     if "origin_host" not in omit:
-        body += a(264, host.encode())
+        body += a(264, _h(host))
     if "origin_realm" not in omit:
         body += a(296, realm.encode())
     body += a(257, addr(ip)) + a(266, u32(99)) + a(269, b"verif-peer", flags=0)
@@ -68,16 +93,16 @@ def cea(host, realm, result=RC_SUCCESS, auth=(), acct=(), hbh=1, e2e=1, ip="10.9
         body += a(258, u32(x))
     for x in acct:
         body += a(259, u32(x))
-    return R.enc_msg(CER, app=0, flags=flags, hbh=hbh, e2e=e2e, avps=body)
+    return R.enc_msg(CER, app=0, flags=flags, hbh=hbh, e2e=e2e, avps=body + _osi())
 
 
 def dwr(host, realm, hbh=2, e2e=2, omit=()):
     body = b""
     if "origin_host" not in omit:
-        body += a(264, host.encode())
+        body += a(264, _h(host))
     if "origin_realm" not in omit:
         body += a(296, realm.encode())
-    return R.enc_msg(DWR, app=0, flags=0x80, hbh=hbh, e2e=e2e, avps=body + a(278, u32(7)))
+    return R.enc_msg(DWR, app=0, flags=0x80, hbh=hbh, e2e=e2e, avps=body + _osi(a(278, u32(7))))
 
 
 def dwa(host, realm, hbh=2, e2e=2, result=RC_SUCCESS, omit=()):
@@ -85,21 +110,21 @@ def dwa(host, realm, hbh=2, e2e=2, result=RC_SUCCESS, omit=()):
     if "result_code" not in omit:
         body += a(268, u32(result))
     if "origin_host" not in omit:
-        body += a(264, host.encode())
+        body += a(264, _h(host))
     if "origin_realm" not in omit:
         body += a(296, realm.encode())
-    return R.enc_msg(DWR, app=0, flags=0, hbh=hbh, e2e=e2e, avps=body)
+    return R.enc_msg(DWR, app=0, flags=0, hbh=hbh, e2e=e2e, avps=body + _osi())
 
 
 def dpr(host, realm, hbh=3, e2e=3, cause=0, omit=()):
     body = b""
     if "origin_host" not in omit:
-        body += a(264, host.encode())
+        body += a(264, _h(host))
     if "origin_realm" not in omit:
         body += a(296, realm.encode())
     if "disconnect_cause" not in omit:
         body += a(273, u32(cause))
-    return R.enc_msg(DPR, app=0, flags=0x80, hbh=hbh, e2e=e2e, avps=body)
+    return R.enc_msg(DPR, app=0, flags=0x80, hbh=hbh, e2e=e2e, avps=body + _osi())
 
 
 def dpa(host, realm, hbh=3, e2e=3, result=RC_SUCCESS, omit=()):
@@ -107,10 +132,10 @@ def dpa(host, realm, hbh=3, e2e=3, result=RC_SUCCESS, omit=()):
     if "result_code" not in omit:
         body += a(268, u32(result))
     if "origin_host" not in omit:
-        body += a(264, host.encode())
+        body += a(264, _h(host))
     if "origin_realm" not in omit:
         body += a(296, realm.encode())
-    return R.enc_msg(DPR, app=0, flags=0, hbh=hbh, e2e=e2e, avps=body)
+    return R.enc_msg(DPR, app=0, flags=0, hbh=hbh, e2e=e2e, avps=body + _osi())
 
 
 def ccr(host, realm, dest_realm, app=4, hbh=10, e2e=10, session="s;1", flags=0xc0, omit=(), extra=b"",
@@ -121,7 +146,7 @@ def ccr(host, realm, dest_realm, app=4, hbh=10, e2e=10, session="s;1", flags=0xc
     if "session_id" not in omit:
         body += a(263, session.encode())
     if "origin_host" not in omit:
-        body += a(264, host.encode())
+        body += a(264, _h(host))
     if "origin_realm" not in omit:
         body += a(296, realm.encode())
     if "destination_realm" not in omit:
@@ -144,7 +169,7 @@ def cca(host, realm, app=4, hbh=10, e2e=10, session="s;1", result=RC_SUCCESS, om
     if "result_code" not in omit:
         body += a(268, u32(result))
     if "origin_host" not in omit:
-        body += a(264, host.encode())
+        body += a(264, _h(host))
     if "origin_realm" not in omit:
         body += a(296, realm.encode())
     body += a(258, u32(app)) + a(416, u32(1)) + a(415, u32(0))
@@ -157,7 +182,7 @@ def generic_request(code, host, realm, dest_realm, app, hbh, e2e, session="g;1",
     if "session_id" not in omit:
         body += a(263, session.encode())
     if "origin_host" not in omit:
-        body += a(264, host.encode())
+        body += a(264, _h(host))
     if "origin_realm" not in omit:
         body += a(296, realm.encode())
     if "destination_realm" not in omit and dest_realm is not None:
@@ -172,7 +197,7 @@ def generic_answer(code, host, realm, app, hbh, e2e, result=RC_SUCCESS, session=
     if "result_code" not in omit:
         body += a(268, u32(result))
     if "origin_host" not in omit:
-        body += a(264, host.encode())
+        body += a(264, _h(host))
     if "origin_realm" not in omit:
         body += a(296, realm.encode())
     return R.enc_msg(code, app=app, flags=flags, hbh=hbh, e2e=e2e, avps=body)
